@@ -306,3 +306,13 @@ def secret_constructors(ctx):
         sl = backward_slice(rb, [dk], follow_mutarg=False)
         ctx.check(any(c in sl.calls for c in kg), rb.key, 'dk <- fresh keygen', 'the ML-KEM decapsulation key of a new hybridized secret is not '
                   'the one freshly generated by MlKem::keygen', 'dk from keygen(rng)', rb.where(st['ln']))
+
+
+@rule('C16', 'publish-newest', configs=('default', 'p256'))
+def publish_newest(ctx):
+    """'Every rekey publishes a public value never published before': what mpk() publishes for a right is derived from the
+    secret at the FRONT of its chain — the one rekey has just drawn — never from an older revision found by walking the chain
+    (C06.publish-guard, C04.orientation)."""
+    from . import c06, c04
+    c06.publish_guard(ctx)
+    c04.orientation(ctx)
